@@ -143,8 +143,19 @@ def prepare_nofail(c, a):
 SYS_LOADS = ['sys-conc', 'sys-qps', 'sys-slack']     # system-protection scenarios (adapters/_common: VSysLoads)
 
 
+# client-side entry points whose framework can fail the wrapped (downstream) call at other layers than the node itself: the
+# layered outcomes every variant of the entry point must have been sent through (adapters/_common: VLayerOf)
+LAYERED = {
+    'micro': {'NewClientWrapper/Call': ['err@registry', 'err@ctx', 'err@backoff', 'err@retry'],
+              'NewClientWrapper/Stream': ['err@registry', 'err@ctx', 'err@backoff', 'err@retry']},
+    'grpc': {'NewUnaryClientInterceptor': ['err@ctx'], 'NewStreamClientInterceptor': ['err@ctx']},
+    'kratos': {'SentinelClientMiddleware': ['err@ctx']},
+}
+LAYER_OF = {'err@registry': 'pre', 'err@ctx': 'pre', 'err@backoff': 'pre', 'err@retry': 'post'}
+
+
 def desc(e):
-    return (e['adapter'], e['ep'], e['variant'], e['want'], e['cls']['outcome'])
+    return (e['adapter'], e['ep'], e['variant'], e['want'], e.get('oc') or e['cls']['outcome'])
 
 
 def validate(c, recs, tag):
@@ -213,7 +224,11 @@ def binding_selftest(c, good):
         e['corr'] = 'blocked although no rule is violated'; out.append(e)
     for e in take(lambda e: blk(e) and e['cls']['flow'] and e['src'] == 'slot', 6):
         e['btype'] = 'system'; e['corr'] = 'flow block carries block type system'; out.append(e)
-    if len(out) < 20 or len(out) - n_old < 40:
+    for e in take(lambda e: adm(e) and e['cls']['layer'] != 'node' and 'complete-err' in e['events'], 10):
+        e['events'] = [('complete' if x == 'complete-err' else x) for x in e['events']]; e['corr'] = 'error of another layer than the node not traced'; out.append(e)
+    for e in take(lambda e: adm(e) and e['cls']['outcome'] == 'ok', 4):
+        e['cls']['layer'] = 'pre'; e['corr'] = 'malformed class (layer without error)'; out.append(e)
+    if len(out) < 20 or len(out) - n_old < 50:
         raise MachineryError('binding self-test: too few accepted requests to corrupt (%d, %d of the system-protection kinds)' % (len(out), len(out) - n_old))
     bad, r = validate(c, out, 'corrupt')
     missed = [e['corr'] for e in out if e['tr'] not in bad]
@@ -230,6 +245,8 @@ def classify(c, adapter, ep, variant, want, why, e):
         return 'C19/%s/outlier-branch/nil-entry-on-block' % adapter
     if adapter == 'micro' and ep == 'NewClientWrapper/Stream' and outlier and why == 'handler-error-not-traced':
         return 'C19/micro/stream-outlier-branch/handler-error-not-traced'
+    if adapter == 'micro' and ep == 'NewClientWrapper/Call' and outlier and why == 'handler-error-not-traced' and e['cls']['layer'] != 'node':
+        return 'C19/micro/call-outlier-branch/error-outside-node-call-not-traced'
     if adapter == 'micro' and ep == 'NewStreamWrapper' and why == 'configured-fallback-not-produced':
         return 'C19/micro/stream-wrapper/stream-fallback-option-ignored'
     if adapter == 'micro' and ep == 'NewStreamWrapper' and why == 'no-entry-asked' and e['escaped']:
@@ -272,7 +289,7 @@ def check(c, tier, replay):
         if bad:
             e = [x for x in recs if x['tr'] in bad][0]
             c.violation('replayed request breaks the entry contract: %s %s/%s %s/%s: %s; events %s' % (
-                e['adapter'], e['ep'], e['variant'], e['want'], e['cls']['outcome'], bad[e['tr']]['why'], e['events']), replay)
+                e['adapter'], e['ep'], e['variant'], e['want'], e.get('oc') or e['cls']['outcome'], bad[e['tr']]['why'], e['events']), replay)
         c.cov['states'] = c.cov['transitions'] = 1
         c.cov['traces_validated_against_impl'] = len(recs)
         c.sample(recs[:3])
@@ -287,7 +304,8 @@ def check(c, tier, replay):
             'double-exit': ('ContractHonoured', 'ExitOnce', 'GaugeExact', 'TypeOK', 'GaugeReturns'), 'no-trace': ('ContractHonoured', 'ErrorTraced'),
             'no-fallback': ('ContractHonoured', 'FallbackProduced'),
             'server-as-outbound': ('ContractHonoured', 'SystemProtects', 'InboundExact', 'GaugeReturns'),
-            'client-as-inbound': ('ContractHonoured', 'ClientNeverSystemBlocked', 'BlockHasCause', 'InboundExact', 'GaugeReturns')}
+            'client-as-inbound': ('ContractHonoured', 'ClientNeverSystemBlocked', 'BlockHasCause', 'InboundExact', 'GaugeReturns'),
+            'trace-in-node-wrapper': ('ContractHonoured', 'ErrorTraced')}
     inv_line = [l for l in cfg.splitlines() if l.startswith('INVARIANTS')]
     if len(inv_line) != 1:
         raise MachineryError('AdapterContract_MC.cfg: one INVARIANTS line expected')
@@ -298,21 +316,23 @@ def check(c, tier, replay):
             t = t.replace(inv_line[0], 'INVARIANTS ' + only)
         return c.tlc('AdapterContract_MC', cfg_text=t, workers=2, timeout=300, count=False)
     for mut, props in muts.items():
-        if mut in ('server-as-outbound', 'client-as-inbound'):
+        if mut in ('server-as-outbound', 'client-as-inbound', 'trace-in-node-wrapper'):
             continue                      # judged clause by clause below
         r = mutant(mut)
         if r.violated not in props:
             raise MachineryError('vacuity self-test: broken adapter %s should violate one of %s, TLC says %s %s' % (mut, props, r.violated, r.error))
     # the side clauses one by one: each must be violated ON ITS OWN by the adapter that breaks it
     for mut, inv in [('server-as-outbound', 'SystemProtects'), ('server-as-outbound', 'ContractHonoured'), ('server-as-outbound', 'InboundExact'),
-                     ('client-as-inbound', 'ClientNeverSystemBlocked'), ('client-as-inbound', 'ContractHonoured'), ('client-as-inbound', 'BlockHasCause')]:
+                     ('client-as-inbound', 'ClientNeverSystemBlocked'), ('client-as-inbound', 'ContractHonoured'), ('client-as-inbound', 'BlockHasCause'),
+                     ('trace-in-node-wrapper', 'ErrorTraced')]:
         r = mutant(mut, inv)
         if r.violated != inv:
             raise MachineryError('vacuity self-test: broken adapter %s should violate %s on its own, TLC says %s %s' % (mut, inv, r.violated, r.error))
-    c.cov['spec_mutants'] = ('no-defer, handler-when-blocked, double-exit, no-trace, no-fallback, server-as-outbound, client-as-inbound: each violates the '
+    c.cov['spec_mutants'] = ('no-defer, handler-when-blocked, double-exit, no-trace, no-fallback, server-as-outbound, client-as-inbound, trace-in-node-wrapper '
+                             '(errors of the layers before / after the node untraced: violates ErrorTraced): each violates the '
                              'contract invariants; server-as-outbound violates SystemProtects / ContractHonoured / InboundExact each on its own, '
                              'client-as-inbound ClientNeverSystemBlocked / ContractHonoured / BlockHasCause')
-    c.log('S1 vacuity: the seven broken adapter designs violate the contract invariants (side clauses also one by one)')
+    c.log('S1 vacuity: the eight broken adapter designs violate the contract invariants (side clauses also one by one)')
     # S2 + S3 ----------------------------------------------------------------------------
     with cf.ThreadPoolExecutor(max_workers=2) as ex:
         probes = {a: ex.submit(probe_unbuildable, c, a) for a in UNBUILDABLE}
@@ -353,7 +373,14 @@ def check(c, tier, replay):
                 miss = [x for x in SYS_LOADS if x not in got]
                 if miss:
                     raise MachineryError('adapter %s entry point %s / %s: no system-protection scenario %s (uncovered entry point)' % (a, ep, v, miss))
+            for v in sorted({e['variant'] for e in reqs if e['ep'] == ep}):
+                got = {e.get('oc') for e in reqs if e['ep'] == ep and e['variant'] == v and e['want'] == 'admit'}
+                miss = [x for x in LAYERED.get(a, {}).get(ep, []) if x not in got]
+                if miss:
+                    raise MachineryError('adapter %s entry point %s / %s: the wrapped call was never failed at layer(s) %s (uncovered)' % (a, ep, v, miss))
             for e in reqs:
+                if e['ep'] == ep and e['cls']['layer'] != LAYER_OF.get(e.get('oc'), 'node'):
+                    raise MachineryError('adapter %s entry point %s: layer %s of the class does not match the outcome %s' % (a, ep, e['cls']['layer'], e.get('oc')))
                 if e['ep'] == ep and (e['cls']['side'] != sides[ep] or e['cls']['sys'] != {'sys-conc': 'violated', 'sys-qps': 'violated', 'sys-slack': 'slack'}.get(e['want'], 'none')):
                     raise MachineryError('adapter %s entry point %s: request class %s does not match the scenario %s' % (a, ep, e['cls'], e['want']))
         covered[a] = dict(entry_points=sorted(eps), sides=sides, options=sorted(opts), requests=len(reqs), variants=sorted({e['ep'] + ' / ' + e['variant'] for e in reqs}),
@@ -384,6 +411,11 @@ def check(c, tier, replay):
         admitted_under_slack_rule=sum(1 for e in sysreq if e['cls']['sys'] == 'slack' and 'pass' in e['events']),
         entry_points={s: len({(e['adapter'], e['ep']) for e in sysreq if e['cls']['side'] == s}) for s in ('server', 'client')})
     c.log('S4 system protection: %s' % c.cov['system_protection_scenarios'])
+    lay = [e for e in allreq if e['cls']['layer'] != 'node']
+    c.cov['error_layer_scenarios'] = dict(requests=len(lay), traced=sum(1 for e in lay if 'complete-err' in e['events']),
+                                          by_place={k: sum(1 for e in lay if e.get('oc') == k) for k in sorted(LAYER_OF)},
+                                          entry_points=sorted({e['adapter'] + ' ' + e['ep'] for e in lay}))
+    c.log('S4 error layers: %s' % c.cov['error_layer_scenarios'])
     c.cov['distinct_nontrivial'] = len({(desc(e), tuple(e['events'])) for e in allreq})
     c.cov['rule'] = ('one trace = one request through one (adapter, entry point, option variant, admitted|blocked, handler outcome); every request '
                      'exercises the contract (non-trivial); distinct = distinct (descriptor, event log) pairs; each is sent in three rounds')
@@ -416,7 +448,7 @@ def check(c, tier, replay):
                 continue
             e = es[0]
             what = '%s %s: %s (%d request kinds, e.g. variant %s, %s request, handler %s: events %s%s)' % (
-                a, ep, why, len(ds), e['variant'], e['want'], e['cls']['outcome'], e['events'],
+                a, ep, why, len(ds), e['variant'], e['want'], e.get('oc') or e['cls']['outcome'], e['events'],
                 ', panic leaving the adapter: ' + e['panic'] if e['escaped'] and e['cls']['outcome'] != 'panic' else '')
             if key and c.is_known(key):
                 c.known(key, c.kf[key]['description'])
@@ -438,6 +470,10 @@ def check(c, tier, replay):
                       'a resource extractor option that is not honoured is reported as drift, not judged (the statement does not mention it)',
                       'the side of an entry point (server = guards inbound traffic, client = outbound calls) is part of its API: declared per entry '
                       'point by the driver and cross-checked with the exported name (client entry points carry "Client" in their name)',
+                      'error layers: for a client-side entry point the handler is the whole downstream call; micro: the stand-in below the wrapper mirrors '
+                      'rpcClient.Call / Stream of go-micro v2.9.1 (registry lookup, context-done check, Backoff hook, per-node call inside the CallWrappers, '
+                      'Retry hook), arranged through a cancelled context and client.WithBackoff / WithRetry call options; grpc / kratos: a cancelled context, '
+                      'the invoker / next handler returns the context error; the event "handler" = the downstream call was entered',
                       'system-protection scenarios: the violated rule is system.Concurrency 1 with one inbound entry held by the driver itself, or '
                       'system.InboundQPS 0; the arrangement is confirmed by a direct inbound probe entry before each request (else exit 2); the '
                       'block type of entry points with a private slot chain is not observable and not judged']
